@@ -94,6 +94,12 @@ CHECKS = {
         note="Trusted base: the list model and flatten in the harness; booleans, bare HTML() as an iterable and item/slice assignment are outside the statement.",
         ref="2/C14",
     ),
+    "C15": dict(
+        technique="property-based reference model: Hypothesis sequences of positional attribute dicts / keywords (colliding raw names, all value types, children interleaved) followed by update / item-assignment steps against a dict model of normalise+merge; consolidate_attrs rebuild equivalence by structural snapshot",
+        text="Seeded generated-input / history search against a reference dict model; rebuild round-trip through consolidate_attrs. Exploration.",
+        note="Trusted base: the documented normalisation and merge rules as coded in the harness model, snapshot S, matcher E (for plain x HTML merged text).",
+        ref="2/C15",
+    ),
 }
 
 PENDING_REASON = "check not built yet in this revision (work in progress; see DESIGN.md section 2 for the planned generator and oracle)"
